@@ -753,6 +753,36 @@ def install_std_models(P):
             return acc
         raise Unsupported('integer method ' + meth)
 
+    @M(r'^core::num::<impl (\w+)>::(from_le_bytes|from_be_bytes|from_ne_bytes|to_le_bytes|to_be_bytes|to_ne_bytes)$', regex=True)
+    def _(m, fr, a, mm):
+        ty, meth = mm.group(1), mm.group(2)
+        nb = BITS[ty] // 8
+        little = 'be' not in meth
+        if meth.startswith('from_'):
+            arr = _load1(a[0])
+            bs = [arr.get(i) for i in range(nb)]
+            if not little:
+                bs = bs[::-1]
+            if all(not b.sym() for b in bs):
+                return I(sum(b.v << (8 * i) for i, b in enumerate(bs)), ty)
+            return mk_int(z3.Concat(*[b.z() for b in reversed(bs)]) if nb > 1 else bs[0].z(), ty)
+        x = a[0]
+        bs = [mk_int(z3.Extract(8 * i + 7, 8 * i, x.z()), 'u8') for i in range(nb)]
+        if not little:
+            bs = bs[::-1]
+        return Arr(nb, I(0, 'u8'), dict(enumerate(bs)))
+
+    @M(r'^(?:<(\w+) as Ord>::clamp|core::num::<impl (\w+)>::clamp)$', regex=True)
+    def _(m, fr, a, mm):
+        x, lo, hi = a
+        if m.branch_bool(m.binop('Gt', lo, hi)):
+            raise Panic('assertion failed: min <= max')
+        if m.branch_bool(m.binop('Lt', x, lo)):
+            return lo
+        if m.branch_bool(m.binop('Gt', x, hi)):
+            return hi
+        return x
+
     @M(r'^(?:std::cmp::|core::cmp::)?(min|max)::<(\w+)>$', regex=True)
     def _(m, fr, a, mm):
         return P.call(m, fr, 'core::num::<impl %s>::%s' % (mm.group(2), mm.group(1)), a)
